@@ -421,7 +421,7 @@ Lemma take_exh_incl : forall {A} conj (l : list (tok * A)) x, In x (take_exh con
 Proof.
   intros A conj l. induction l as [|[t a] l IH]; intros x H; [contradiction|]. cbn [take_exh] in H.
   destruct t; try (destruct (exh_takes _); [destruct H as [<-|H]; [left; reflexivity|right; apply IH; exact H]|contradiction]);
-    (destruct (conj && negb (all_unbounded _)); [destruct H as [<-|[]]; left; reflexivity|
+    (destruct (conj && bounded_branch _); [destruct H as [<-|[]]; left; reflexivity|
      destruct H as [<-|H]; [left; reflexivity|right; apply IH; exact H]]).
 Qed.
 
@@ -454,7 +454,7 @@ Proof.
     assert (Hf : opt_ok bt_ok (if Nat.eqb 1 (length (flat_map opt_list terms0)) then sum else if exh_maybe sum then sum else Some bterm_zero)).
     { destruct (Nat.eqb _ _); [exact Hs|]. destruct (exh_maybe sum); [exact Hs|exact I]. }
     destruct (if Nat.eqb 1 (length (flat_map opt_list terms0)) then sum else if exh_maybe sum then sum else Some bterm_zero) as [x|]; [|exact I].
-    destruct (exh_rep_finalizes x); [|exact Hf].
+    destruct (bounded_branch b); [exact Hf|]. destruct (exh_rep_finalizes x); [|exact Hf].
     eapply safe_bind; [apply bterm_product_safe; [exact Hf|apply fco_ok]|]. intros y Hy; exact Hy.
 Qed.
 
